@@ -325,6 +325,9 @@ static int lengths_for(struct shape sh, int thorough, uint64_t *out, int *big_fr
     if (thorough) {
         uint64_t t[] = { 16 * a - 1, 16 * a, 4096, 4097, 65537, 1u << 20 };
         for (int i = 0; i < 6; i++) { int dupl = 0; for (int j = 0; j < c; j++) if (out[j] == t[i]) dupl = 1; if (!dupl) out[c++] = t[i]; if (i == 1) *big_from = c; }
+    } else if (named_shape(&sh) && !sh.wv) {
+        /* quick: the named shapes also see two buffers above every 8- and 16-bit boundary (identity presentation, at most one erasure) */
+        out[c++] = 4097; out[c++] = 65537;
     }
     return c;
 }
